@@ -42,9 +42,70 @@ def int_try_from_model(name):
     return None
 
 
+def enum_remap(prog, g, adt):
+    """for a function `fn(E) -> E` of the program built from `if x == E::A { E::B } else { x }` / `match` arms: the
+    mapping variant -> variant it computes (identity where the parameter is returned); None if it is not of that form"""
+    if g.argc != 1 or g.kind == "closure":
+        return None
+    t0 = g.locals[0].get("s", "")
+    t1 = g.locals[1].get("s", "")
+    if adt not in t0 or adt not in t1:
+        return None
+    variants = [v["name"] for v in prog.adt(adt)["variants"]]
+    mapping = {v: v for v in variants}
+
+    def result_of(region):
+        outs = set()
+        for bb in region:
+            for st in g.stmts(bb):
+                if st["k"] == "assign" and st["place"] == {"l": 0}:
+                    rv = st["rv"]
+                    if rv["k"] == "agg" and rv.get("adt") == adt:
+                        outs.add(rv["variant"])
+                    elif rv["k"] == "use" and "c" not in rv["op"] and op_place(rv["op"]) == {"l": 1}:
+                        outs.add("=")
+                    else:
+                        outs.add("?")
+        return outs
+    for sb in sorted(g.reachable):
+        if g.term(sb)["k"] != "switch":
+            continue
+        cd = flow.cond_of(g, sb)
+        ee = flow.enum_eq(g, cd)
+        if ee is not None:
+            var, other = ee
+            if not all(o.kind == "arg" and o.arg == 1 for o in other):
+                return None
+            side = {x for (_, x) in flow.true_side(g, sb, cd)}
+            region = set()
+            for x in side:
+                region |= cfg.reach_from(g, x)
+            # only the blocks that are not also reached from the other side
+            others = set()
+            for x in set(g.succ[sb]) - side:
+                others |= cfg.reach_from(g, x)
+            outs = result_of(region - others)
+            if len(outs) != 1 or "?" in outs:
+                return None
+            o = outs.pop()
+            mapping[var] = var if o == "=" else o
+        elif cd.kind == "discr" and cd.adt == adt:
+            regs = arms.arm_regions(prog, g, sb, adt)
+            for v, reg in regs.items():
+                outs = result_of(reg)
+                if len(outs) != 1 or "?" in outs:
+                    return None
+                o = outs.pop()
+                mapping[v] = v if o == "=" else o
+        else:
+            return None
+    return mapping
+
+
 class Tables:
     def __init__(self, ctx, prog):
         self.prog = prog
+        self.remaps = {}
         self.variants = [v["name"] for v in prog.adt(REPR)["variants"]]
         self.discr = {v["name"]: v["discr"] for v in prog.adt(REPR)["variants"]}
         # kind per variant
@@ -142,6 +203,13 @@ class Tables:
             return frozenset(["Some"]) if names[k0] == "Object" else frozenset(["None"])
         if n == KINDFN and k0 in names:
             return ("K", self.kind[names[k0]])
+        if self.prog.has_fn(n) and argvals and argvals[0] is not None and len(argvals) == 1:
+            # a helper that folds kinds into ordering classes (`kind_rank`: iterables rank with sequences)
+            if n not in self.remaps:
+                self.remaps[n] = enum_remap(self.prog, self.prog.fn(n), KIND)
+            mp = self.remaps[n]
+            if mp is not None:
+                return ("K", frozenset(mp.get(x, x) for x in argvals[0]))
         if n == V + "Value::is_number" and k0 in names:
             return ("B", frozenset(["1" if self.kind[names[k0]] == frozenset(["Number"]) else "0"]))
         if n == V + "Value::is_tuple" and k0 in names and names[k0] != "Object":
@@ -181,6 +249,118 @@ def check_unknown_lengths(ctx, prog, fns, tag, len_suffix="enumerator_len"):
                        "never equals a sequence with the same items although `cmp` says Equal" % (f.path, c.name.split("::")[-1]),
                        f.where(c.bb))
     return n
+
+
+def check_object_pairs(ctx, prog, tag):
+    """V1e: the variant-level domain treats all objects as one representation; inside it `==` dispatches on the pair of
+    `ObjectRepr`s (map / sequence / iterable / plain).  `cmp` orders by `kind()` first, so a pair of object
+    representations that `==` accepts as comparable (any arm but the constant-false fallback) must map to the same
+    `ValueKind` in `Value::kind`, or the two values are equal and ordered at once."""
+    OR = "minijinja::value::object::ObjectRepr"
+    f = prog.fns.get(EQ)
+    kf = prog.fns.get(KINDFN)
+    if f is None or kf is None:
+        return
+    sws = {s_[0]: arms.variant_targets(prog, f, s_[0], OR) for s_ in arms.enum_switches(prog, f, OR)}
+    ksw = arms.enum_switches(prog, kf, OR)
+    if not sws or not ksw:
+        ctx.need(False, "C07.V1e: no ObjectRepr dispatch found in eq / kind")
+    kregs = arms.arm_regions(prog, kf, ksw[0][0], OR)
+    kind_of = {}
+    for v_, reg_ in kregs.items():
+        ks_ = {rv["variant"] for _, _, rv in arms.aggregates_in(kf, reg_, KIND)}
+        kind_of[v_] = "/".join(sorted(ks_)) or "?"
+    # `cmp` may fold kinds into ordering classes before it compares them (kind_rank: iterables rank with sequences)
+    cmpf = prog.fns.get(CMP)
+    if cmpf is not None:
+        for c in cmpf.calls():
+            if c.path == "core::cmp::Ord::cmp" and (c.self_ty or {}).get("adt") == KIND:
+                gs = {o.call.name for a in c.args for o in flow.origins(cmpf, a) if o.kind == "call" and o.call.name != KINDFN
+                      and prog.has_fn(o.call.name)}
+                for g in gs:
+                    mp = enum_remap(prog, prog.fn(g), KIND)
+                    if mp is not None:
+                        kind_of = {v_: mp.get(k_, k_) for v_, k_ in kind_of.items()}
+    which = {}
+    for sb in sws:
+        cd = flow.cond_of(f, sb)
+        idx = None
+        for e in (cd.place or {}).get("p", []):
+            if isinstance(e, dict) and "f" in e:
+                idx = e["f"]
+        which[sb] = idx
+    if set(which.values()) - {0, 1}:
+        ctx.need(False, "C07.V1e: the ObjectRepr dispatch in eq is not on a pair")
+
+    def is_false(bb, depth=0):
+        for st in f.stmts(bb):
+            if st["k"] == "assign" and st["place"] == {"l": 0} and st["rv"]["k"] == "use" and "c" in st["rv"]["op"]:
+                return const_int_(st["rv"]["op"]) == 0
+        nx = list(f.succ[bb])
+        if f.term(bb)["k"] == "goto" and len(nx) == 1 and depth < 3:
+            return is_false(nx[0], depth + 1)
+        return False
+    entry = min(sws, key=lambda b: len(cfg.dominators(f).get(b, ())))
+    variants = sorted(kind_of)
+    n = 0
+    for va in variants:
+        for vb in variants:
+            bb = entry
+            for _ in range(8):
+                if bb not in sws:
+                    break
+                bb = sws[bb].get(va if which[bb] == 0 else vb)
+                if bb is None:
+                    break
+            if bb is None:
+                continue
+            n += 1
+            comparable = not is_false(bb)
+            same_kind = kind_of.get(va) == kind_of.get(vb)
+            ctx.ob("C07.V1e.object-equality-never-crosses-kinds", "%s%s~%s" % (tag, va, vb), same_kind or not comparable,
+                   "`==` compares a %s object with a %s object item by item (they can be equal: `[1, 2] == range(1, 3)`), but "
+                   "`cmp` orders by kind first and the two have different kinds: equal values that are also `<`" % (va, vb),
+                   f.where(bb))
+    ctx.floor("C07.V1e pairs of object representations" + tag, n, 9)
+
+
+def check_reverse_arms(ctx, prog, tag):
+    """V10: `reverse` is an involution only if every representation is actually reversed.  In `Value::reverse` each arm
+    of the dispatch on the object's `Enumerator` that builds the result from the enumerator's own iterator must apply
+    a reversal (`rev()`, `reverse()`, `next_back`) - in the arm or in a closure built there."""
+    ENUMR = "minijinja::value::object::Enumerator"
+    f = prog.fns.get(V + "Value::reverse")
+    if f is None:
+        return
+    sw = arms.enum_switches(prog, f, ENUMR)
+    if not sw:
+        ctx.need(False, "C07.V10: Value::reverse has no dispatch on Enumerator")
+    regs = arms.arm_regions(prog, f, sw[0][0], ENUMR)
+    n = 0
+    for v, reg in sorted(regs.items()):
+        if v in ("NonEnumerable", "Empty"):
+            continue
+        n += 1
+        names = [c.name for c in arms.calls_in(f, reg)]
+        for bb in reg:
+            for st in f.stmts(bb):
+                rv = st.get("rv", {})
+                if rv.get("k") == "agg" and rv.get("closure"):
+                    cl = prog.fns.get(norm_path(rv["closure"]))
+                    scope = [cl] + prog.closures_of(cl.path) if cl is not None else []
+                    for g in scope:
+                        names += [c.name for c in g.calls()]
+        rev = any(x.endswith(("Iterator::rev", "<impl [T]>::reverse", "::next_back", "::rfold")) and not x.startswith("minijinja::")
+                  for x in names)
+        ctx.ob("C07.V10.every-representation-is-reversed", "%s%s" % (tag, v), rev,
+               "the %s arm of Value::reverse hands the enumerator's items on in their original order (no rev / reverse): "
+               "`x|reverse` is `x`, and `x|reverse|reverse` (which collects and reverses) is not" % v, f.loc)
+    ctx.floor("C07.V10 enumerator arms of Value::reverse" + tag, n, 5)
+
+
+def const_int_(op):
+    from ..facts import const_int
+    return const_int(op)
 
 
 def run(ctx):
@@ -304,6 +484,27 @@ def run(ctx):
                                     rv = s.get("rv", {})
                                     if rv.get("k") == "bin" and rv.get("ty") in ("f64", "f32") and rv["op"] in ("Lt", "Gt", "Le", "Ge"):
                                         badc.append("float compare")
+                            # bytes that are valid UTF-8 have a string view as well (`as_str()` is Some for them) but
+                            # they order as bytes against other bytes: a comparator that folds / compares through the
+                            # string view must first establish that the value *is* a string
+                            for k in scope:
+                                for cc in k.calls():
+                                    if cc.name != V + "Value::as_str" or not cc.args:
+                                        continue
+                                    who = {o_.key() for o_ in flow.origins(k, cc.args[0])}
+                                    guarded = False
+                                    for (sb_, taken_) in flow.guards(k, cc.bb):
+                                        cd_ = flow.cond_of(k, sb_)
+                                        ee_ = flow.enum_eq(k, cd_)
+                                        side_ = flow.bool_true_labels(taken_)
+                                        if ee_ is None or side_ is None or ee_[0] != "String":
+                                            continue
+                                        truth_ = (side_ != cd_.neg) != cd_.call.name.endswith("::ne")
+                                        if truth_ and any(o_.kind == "call" and o_.call.name == KINDFN and (
+                                                {q_.key() for q_ in flow.origins(k, o_.call.args[0])} & who) for o_ in ee_[1]):
+                                            guarded = True
+                                    if not guarded:
+                                        badc.append("the string view of a value that may be bytes (as_str without kind() == String)")
                             # a verdict that is a constant on some inputs and a real comparison on others is not
                             # transitive (`_ => Ordering::Equal` for items whose key lookup failed: such an item is
                             # "equal" to two items that are not equal to each other); std's sort panics on that
@@ -331,6 +532,8 @@ def run(ctx):
         # boundary, otherwise the order is not antisymmetric with == (2^127 vs i128::MAX)
         from .c08 import check_mixed_orderings
         check_mixed_orderings(ctx, prog, tag, rule="C07.V8.mixed-ordering-casts-the-float-only-below-saturation", floor_name="C07.V8")
+        check_object_pairs(ctx, prog, tag)
+        check_reverse_arms(ctx, prog, tag)
         # ---- V9 (= C08.N7): `==` goes through coerce (as_f64 must call an integer exact exactly when it is), the order
         # through the exact fallbacks; the two agree only if as_f64's exactness test is the guarded round trip
         from .c08 import check_exactness_of_integer_floats
